@@ -138,4 +138,97 @@ example :
   intro st0 ops
   refine ⟨_, rfl, no_alias ops st0 _ "x" rfl (by decide), ?_, ?_⟩ <;> decide
 
+/-! ## Subsequence: linear windows and error cases -/
+
+/-- a linear window `0 ≤ a < b ≤ length` yields exactly the bytes `a..b-1` (0-based) and the shift `a` -/
+theorem subsequence_linear (s : Bytes) (a b : Nat) (hab : a < b) (hb : b ≤ s.length) :
+    subsequence s a b false = .ok ((s.drop a).take (b - a), a) := by
+  have h1 : Int.tmod (a : Int) (s.length : Int) = a := Int.tmod_eq_of_lt (by omega) (by omega)
+  have h2 : Int.tmod ((b : Int) - 1) (s.length : Int) = b - 1 := Int.tmod_eq_of_lt (by omega) (by omega)
+  have hs : s ≠ [] := List.ne_nil_of_length_pos (by omega)
+  have e1 : ¬ b ≤ a := by omega
+  have e3 : ¬ s.length ≤ a := by omega
+  have e5 : ¬ s.length < b := by omega
+  have e6 : ¬ (b : Int) < 0 := by omega
+  unfold subsequence
+  simp only [h1, h2]
+  simp [e1, e3, e5, e6, hs, hab]
+
+/-- Go's error cases of `Subsequence`, linear -/
+theorem subsequence_fromGeTo (s : Bytes) (f t : Int) (h : f ≥ t) :
+    subsequence s f t false = .error .fromGeTo := by
+  unfold subsequence
+  simp [h]
+
+theorem subsequence_fromNeg (s : Bytes) (f t : Int) (c : Bool) (h : f < 0) (hc : c = true ∨ f < t) :
+    subsequence s f t c = .error .fromNeg := by
+  unfold subsequence
+  rcases hc with hc | hc
+  · simp [h, hc]
+  · have : ¬ t ≤ f := by omega
+    simp [h, this]
+
+theorem subsequence_fromOut (s : Bytes) (f t : Int) (h0 : 0 ≤ f) (hft : f < t) (h : (s.length : Int) ≤ f) :
+    subsequence s f t false = .error .fromOut := by
+  unfold subsequence
+  have e1 : ¬ t ≤ f := by omega
+  have e2 : ¬ f < 0 := by omega
+  simp [e1, e2, h]
+
+theorem subsequence_toOut (s : Bytes) (f t : Int) (h0 : 0 ≤ f) (hft : f < t) (hf : f < s.length)
+    (h : (s.length : Int) < t) :
+    subsequence s f t false = .error .toOut := by
+  unfold subsequence
+  have e1 : ¬ t ≤ f := by omega
+  have e2 : ¬ f < 0 := by omega
+  have e3 : ¬ (s.length : Int) ≤ f := by omega
+  have hs : s ≠ [] := List.ne_nil_of_length_pos (by omega)
+  simp [e1, e2, e3, hs, h]
+
+/-- a linear subsequence succeeds exactly on a window `0 ≤ from < to ≤ length` and never panics -/
+theorem subsequence_linear_ok_iff (s : Bytes) (f t : Int) :
+    (∃ r, subsequence s f t false = .ok r) ↔ (0 ≤ f ∧ f < t ∧ t ≤ s.length) := by
+  constructor
+  · rintro ⟨r, hr⟩
+    by_cases h1 : f ≥ t
+    · rw [subsequence_fromGeTo s f t h1] at hr; cases hr
+    by_cases h2 : f < 0
+    · rw [subsequence_fromNeg s f t false h2 (Or.inr (by omega))] at hr; cases hr
+    by_cases h3 : (s.length : Int) ≤ f
+    · rw [subsequence_fromOut s f t (by omega) (by omega) h3] at hr; cases hr
+    by_cases h4 : (s.length : Int) < t
+    · rw [subsequence_toOut s f t (by omega) (by omega) (by omega) h4] at hr; cases hr
+    omega
+  · rintro ⟨h0, hft, ht⟩
+    have hf : f = (f.toNat : Int) := by omega
+    have ht' : t = (t.toNat : Int) := by omega
+    rw [hf, ht', subsequence_linear s f.toNat t.toNat (by omega) (by omega)]
+    exact ⟨_, rfl⟩
+
+theorem subsequence_linear_no_panic (s : Bytes) (f t : Int) :
+    subsequence s f t false ≠ .error .panic := by
+  intro hr
+  by_cases h1 : f ≥ t
+  · rw [subsequence_fromGeTo s f t h1] at hr; cases hr
+  by_cases h2 : f < 0
+  · rw [subsequence_fromNeg s f t false h2 (Or.inr (by omega))] at hr; cases hr
+  by_cases h3 : (s.length : Int) ≤ f
+  · rw [subsequence_fromOut s f t (by omega) (by omega) h3] at hr; cases hr
+  by_cases h4 : (s.length : Int) < t
+  · rw [subsequence_toOut s f t (by omega) (by omega) (by omega) h4] at hr; cases hr
+  have hf : f = (f.toNat : Int) := by omega
+  have ht' : t = (t.toNat : Int) := by omega
+  rw [hf, ht', subsequence_linear s f.toNat t.toNat (by omega) (by omega)] at hr
+  cases hr
+
+example : subsequence [97, 99, 103, 116, 110] 1 4 false = .ok ([99, 103, 116], 1) :=
+  subsequence_linear [97, 99, 103, 116, 110] 1 4 (by decide) (by decide)
+example : subsequence [97, 99, 103] 2 2 false = .error .fromGeTo := subsequence_fromGeTo _ _ _ (by decide)
+example : subsequence [97, 99, 103] (-1) 2 false = .error .fromNeg :=
+  subsequence_fromNeg _ _ _ _ (by decide) (Or.inr (by decide))
+example : subsequence [97, 99, 103] 3 5 false = .error .fromOut :=
+  subsequence_fromOut _ _ _ (by decide) (by decide) (by decide)
+example : subsequence [97, 99, 103] 1 4 false = .error .toOut :=
+  subsequence_toOut _ _ _ (by decide) (by decide) (by decide) (by decide)
+
 end ObiVerif.Props.C07
